@@ -880,6 +880,12 @@ int vorbis_synthesis_blockin(vorbis_dsp_state *v,vorbis_block *vb){
         if(extra<0)
           extra=0;
 
+        /* nothing to trim while no audio has been decoded since
+           init/restart (track-only blocks): pcm_returned is still the
+           -1 marker, not a buffer position */
+        if(v->pcm_returned<0)
+          extra=0;
+
         if(vb->eofflag){
           /* trim the end */
           /* no preceding granulepos; assume we started at zero (we'd
@@ -910,6 +916,9 @@ int vorbis_synthesis_blockin(vorbis_dsp_state *v,vorbis_block *vb){
 
       if(v->granulepos>vb->granulepos){
         long extra=v->granulepos-vb->granulepos;
+
+        if(v->pcm_returned<0) /* track-only so far; see above */
+          extra=0;
 
         if(extra)
           if(vb->eofflag){
